@@ -5,7 +5,7 @@ from common import jhash, first_diff
 from pkgrun import *
 from gen.relocate import relocate
 
-PROF = profile(tokens=True, no_textbox_in_link=True, p_numbering=0.0, p_header=0.7, p_footer=0.6, p_footnotes=0.8, p_endnotes=0.6, p_comments=0.7, p_core=0.7,
+PROF = profile(tokens=True, p_numbering=0.0, p_header=0.7, p_footer=0.6, p_footnotes=0.8, p_endnotes=0.6, p_comments=0.7, p_core=0.7,
                p_link=0.15, p_drawing=0.1, blocks=(1, 4))
 RULE = ('a generated package and 2 relocated versions of it: every part renamed and moved to a directory at or below that of the part referring '
         'to it (never the archive root), targets rewritten as relative or package-absolute, relationship ids re-numbered independently per part '
